@@ -229,6 +229,29 @@ def run_history(form, maxsize, typed, kind, flavour, ops, which):
     return obs
 
 
+def discard_problem(ops, which, obs, kind):
+    """cache_discard has no functools counterpart, but its meaning is fixed: the next call of the discarded pattern
+    (with nothing of that pattern in between) invokes the wrapped function again"""
+    def pat(op, w):
+        # the pattern as the cache sees it: methods key on the instance as well
+        return (w if kind == "method" else 0, repr(op[1]), repr(op[2]))
+    pending = set()
+    for op, w, o in builtins.zip(ops, which, obs):
+        if op[0] == "discard":
+            pending.add(pat(op, w))
+        elif op[0] == "clear":
+            pending.clear()
+        elif op[0] == "call":
+            p_ = pat(op, w)
+            hit = p_ in pending
+            # only the textually identical pattern called right away is judged: which *other* spellings share the entry depends
+            # on typed / keyword order, which is the model's business
+            pending.clear()
+            if hit and o[0] == "ret" and not o[2]:
+                return "cache_discard%r immediately followed by the same call was served from the cache (observations %r)" % ((op[1], op[2]), obs)
+    return None
+
+
 def coq_obs(o):
     if o[0] == "ret":
         return "LRet %d %s" % (o[1], "true" if o[2] else "false")
@@ -283,6 +306,8 @@ def run(tier, seed):
         bad = None
         if builtins.any(o[0] == "error" for o in ai):
             bad = "asyncstdlib operation failed: %r" % [o for o in ai if o[0] == "error"][:1]
+        elif has_discard and builtins.any(True for _ in [0]) and discard_problem(ops, which, ai, kind) is not None:
+            bad = discard_problem(ops, which, ai, kind)
         elif not has_discard and ai != si:
             k = next(j for j, (x, y) in enumerate(builtins.zip(ai, si)) if x != y)
             bad = "differs from functools.lru_cache at operation %d (%r): asyncstdlib %r functools %r" % (k, ops[k], ai[k], si[k])
@@ -320,6 +345,19 @@ def run(tier, seed):
                 fails_n += 1
                 rep.violation("lru:history", {"form": "args", "maxsize": maxsize, "typed": typed, "kind": "function", "ops": repr(ops), "which": which,
                                               "why": "hash-colliding call patterns: asyncstdlib %r functools %r" % (ai, si)})
+    # a keyword-only call and a call whose positional arguments are exactly that (name, value) pair are different patterns
+    for typed in (False, True):
+        for maxsize in (None, 3):
+            ops = [("call", (), (("x", 1),)), ("call", (("x", 1),), ()), ("info",), ("call", (), (("x", 1),)), ("call", (("x", 1),), ()), ("info",)]
+            which = [0] * len(ops)
+            NONE_AT["n"] = 9
+            ai = run_history("args", maxsize, typed, "function", "async", ops, which)
+            si = run_history("args", maxsize, typed, "function", "sync", ops, which)
+            rep.count(("kw-vs-pair", typed, maxsize), True)
+            if ai != si:
+                fails_n += 1
+                rep.violation("lru:history", {"form": "args", "maxsize": maxsize, "typed": typed, "kind": "function", "ops": repr(ops), "which": which,
+                                              "why": "f(x=1) vs f(('x', 1)): asyncstdlib %r functools %r" % (ai, si)})
     for kwname in ("self", "key", "maxsize", "typed", "fn", "function", "args", "kwargs", "kwds", "instance", "wrapped", "call", "cache", "user_function", "func"):
         def one(lib):
             calls = []
